@@ -155,3 +155,15 @@ package expand
 //@ func Config.varInd
 //@ props C28 C33
 //@ requires [variable-invariant] wfArr(vr.List, vr.Indexes)
+
+// ---- C16: the sequence branch of brace expansion, over exact 64-bit arithmetic ----
+// Every number produced lies between the two endpoints (so the list is the finite progression from `from`
+// towards `to`), no signed operation wraps around, and the unsigned distance left strictly decreases (termination).
+//@ func bracesSeqRec
+//@ props C16
+//@ mode bv
+//@ nosafety
+//@ overflow
+//@ loop 2 invariant [within-range] step >= 1 && ite(upward, from <= n && n <= to, to <= n && n <= from)
+//@ loop 2 invariant [pad-covers-endpoints] width == 0 || (width >= len(fromLit) && width >= len(toLit))
+//@ loop 2 decreases ite(upward, uint64(to) - uint64(n), uint64(n) - uint64(to))
